@@ -13,7 +13,9 @@ patch="$(readlink -f "$1")"; tier="$2"; shift 2
 exec 9>/tmp/wt/iso.lock; flock 9
 git -C /repo worktree prune
 if [ ! -d "$wt" ]; then git -C /repo worktree add -q --detach "$wt" HEAD || exit 2; fi
-( cd "$wt" && git checkout -q -- . && git checkout -q --detach "$(git -C /repo rev-parse HEAD)" ) || exit 2
+# reset --hard, not checkout -- .: `git apply -3` stages what it applies, and a staged change survives a checkout
+( cd "$wt" && git reset -q --hard && git clean -fdq && git checkout -q --detach "$(git -C /repo rev-parse HEAD)" && git reset -q --hard ) || exit 2
+[ -z "$(git -C "$wt" status --porcelain)" ] || { echo "scratch worktree is not clean" >&2; exit 2; }
 ( cd "$wt" && { git apply "$patch" 2>/dev/null || git apply -3 "$patch" 2>/dev/null || git apply -C1 "$patch"; } ) || { echo "patch does not apply" >&2; exit 2; }
 mkdir -p "$vs"
 rsync -a --exclude 'target*' --exclude '.git' --exclude 'replays/*' --exclude 'evidence/*' /verif/ "$vs"/
@@ -30,4 +32,4 @@ for p in "$@"; do
   echo "$out" | grep -a '^--- ' | sort | uniq -c | sort -rn | head -6 | cut -c1-220
   if [ "$code" != "0" ] && [ "$code" != "1" ]; then echo "$out" | tail -5 | cut -c1-300; fi
 done
-( cd "$wt" && git checkout -q -- . )
+( cd "$wt" && git reset -q --hard )
